@@ -89,6 +89,7 @@ func main() {
 			rc = 1
 		}
 	}
+	profStop()
 	os.Exit(rc)
 }
 
@@ -211,6 +212,43 @@ func compactMap(m map[string]int) string {
 		fmt.Fprintf(&sb, "%s=%d", k, m[k])
 	}
 	return sb.String()
+}
+
+// debugExplain: GWEXPLAIN="sink<-label" prints the flow chain (developer aid).
+func debugExplain(res *FFResult) {
+	if os.Getenv("GWDUMP") != "" {
+		var ls []string
+		for l := range res.LabelSinks {
+			ls = append(ls, l)
+		}
+		sort.Strings(ls)
+		for _, l := range ls {
+			if os.Getenv("GWDUMP") == "n" {
+				fmt.Printf("   flow: %-45s -> %d sinks\n", l, len(res.LabelSinks[l]))
+				continue
+			}
+			fmt.Printf("   flow: %-45s -> %s\n", l, strings.Join(sortedKeys(res.LabelSinks[l]), " "))
+		}
+	}
+	if q := os.Getenv("GWEXPLAINV"); q != "" {
+		parts := strings.SplitN(q, "<-", 2)
+		if id, ok := labIDs[parts[1]]; ok {
+			for _, l := range res.eng.explain(parts[0], id) {
+				fmt.Println("   explainv:", l)
+			}
+		}
+	}
+	q := os.Getenv("GWEXPLAIN")
+	if q == "" {
+		return
+	}
+	parts := strings.SplitN(q, "<-", 2)
+	if len(parts) != 2 {
+		return
+	}
+	for _, l := range res.Explain(parts[0], parts[1]) {
+		fmt.Println("   explain:", l)
+	}
 }
 
 func cmdLine() string { return "bin/gwcheck " + strings.Join(os.Args[1:], " ") }
